@@ -37,7 +37,7 @@ claim('C07', 'sibling decision-tree comparison, arm summaries of GameMode switch
       'Decides the dispatch/conversion shape for all entry points, arms and paths: convert_ref/convert_mut path sets equal, '
       'convert()=convert_mut(self); all 16 IGameMode entries convert first with own mode + Difficulty mods; every GameMode arm '
       'in the crate names only its own mode; sibling entries preprocess alike; TryFrom<OsuPerformance> forwards per table; '
-      'try_convert_map pairs Borrowed/convert_ref and Owned/convert_mut; every converter call inside the crate takes the caller\'s mods, never a constant. Numerical equality follows but is not computed.',
+      'try_convert_map pairs Borrowed/convert_ref and Owned/convert_mut; every converter call inside the crate takes the caller\'s mods, never a constant; fields the conversion copies verbatim are filled alike by the setters of both builders. Numerical equality follows but is not computed.',
       'exported MIR; GameMode has exactly four variants; forwarding table for TryFrom confirmed by reading', 'DESIGN.md §5 C07')
 
 claim('C05', 'loop classification over MIR natural loops (float-accumulator absorption rule) + may-live guard dataflow with call-graph summaries',
@@ -59,7 +59,7 @@ claim('C10', 'per-configuration type check + configuration-independent body fing
       'Decides the structural part: all four feature combinations build; every body that differs between configurations lies inside '
       'util::strains_vec / util::sync (a cfg(feature)/cfg!(feature) elsewhere shows up as a differing fingerprint of the resolved '
       'program, not as a grep hit); guard discipline is identical and conflict-free under RefCell and RwLock; both push bodies normalise alike and record one '
-      'section per call; sum / iter / into_vec of both bodies traverse the whole list; nobody asks len()/iter() after a shrink that leaves the compact body\'s separate count stale. The default-feature suite '
+      'section per call; sum / iter / into_vec of both bodies traverse the whole list; nobody asks len()/iter() after a shrink that leaves the compact body\'s separate count stale (within a function, or across calls for a list kept in a field). The default-feature suite '
       'never compiles the other three configurations. Numerical equivalence of the two StrainsVec bodies is NOT decided.',
       'cargo +nightly check per configuration; fingerprint ignores local types and generic arguments by design', 'DESIGN.md §5 C10')
 claim('C11', 'unsafe-operation inventory from MIR with one obligation rule per kind: typestate dataflow, dominating-guard facts, who-may-write index, call-graph reachability, provenance',
@@ -97,7 +97,7 @@ claim('C14', 'provenance of is_convert in every attribute construction (interpro
 claim('C15', 'delegation shape check (single call, parameter pass-through, constants) and arm summaries of the enum wrappers',
       'Decides the delegation clauses: next = nth(0), last = nth(usize::MAX), len = inner len, 24 wrapper arms forward to the same-named payload method '
       'and re-wrap in their own variant, size_hint = (len, Some(len)); len() consults every collection whose emptiness ends next() and measures the collection '
-      'that terminates it; nth past the end is a guarded None; the caller\'s n enters overflow-capable arithmetic only after being bounded; the bulk step of nth() feeds the same skills as next() under the same conditions. '
+      'that terminates it; nth past the end is a guarded None; the caller\'s n enters overflow-capable arithmetic only after being bounded; the bulk step of nth() feeds the same skills as next() under the same conditions; nth\'s n >= len() branch drains or jumps exactly to the end len() measures; helper parameters are asked with positions or step counts, never both. '
       'nth(n) = n+1 nexts is not decided. One known finding (taiko len/next mismatch on tiny maps).', 'exported MIR', 'DESIGN.md §5 C15')
 claim('C16', 'evaluated associated constants at use sites (loop step of the section accumulator), provenance of exported peaks, sibling preprocessing rule',
       'Decides: the section length each of the 9 skills really advances by equals its mode\'s published SECTION_LEN (inherent shadowing resolved by rustc, '
